@@ -136,7 +136,8 @@ pub fn gen(args: &Args, out: &mut dyn Write) {
                          "kf": *rng.pick(&[2i64, 3, -2, 4, -5, 7])}));
         emit(out, json!({"op": "trig", "ab": hx(((rng.unit_f64() - 0.5) * 4000.0) as f32)}));
         // vectors over several magnitudes, axis-aligned and near-axis ones
-        let mag = 2f64.powi(rng.range(-6, 6) as i32);
+        // (every 4th far below 1e-6 - "near-zero" yet non-zero -, every 4th around 1e3..1e6)
+        let mag = 2f64.powi(match i % 4 { 1 => rng.range(-30, -18), 3 => rng.range(10, 20), _ => rng.range(-6, 6) } as i32);
         let mut c: Vec<f32> = (0..3).map(|_| ((rng.unit_f64() - 0.5) * 2.0 * mag) as f32).collect();
         match i % 7 {
             0 => c[1] = 0.0,
